@@ -1,4 +1,5 @@
 import Flowjaxv.Proofs.LogDet
+import Flowjaxv.Proofs.Rqs
 /-!
 # C02 — the log-determinant is the log-determinant
 
@@ -220,5 +221,36 @@ theorem elementwise_instance {C : Type} (v : Fin 2 → ℝ) (c : C) :
       · exact (LogDet.affine_ld (C := C) (Affine.mk 0 (-2)) (by norm_num) (v 0) trivial c).2.2
       · exact (LogDet.exp_ld (C := C) (v 1) trivial c).2.2)
   rw [h, hJ, LinearMap.det_toContinuousLinearMap, LinearMap.det_toLin']
+
+/-! ### Rational-quadratic spline (every well-formed parameter vector, `Rqs.RqsWF`) -/
+
+/-- inside the interval — bin interiors AND interior knots (the spline is C¹ there) — the reported
+log-det is `log |d/dx transform|` of the generated forward map, with a positive derivative -/
+theorem rqs_ld_interior {p : Gen.RationalQuadraticSpline ℝ} (h : Rqs.RqsWF p) (x : ℝ)
+    (hlo : p.interval.1 < x) (hhi : x < p.interval.2) :
+    HasDerivAt p.transform (p.derivative x) x ∧ 0 < p.derivative x ∧
+      (p.transform_and_log_det x).2 = Real.log |p.derivative x| := by
+  have hd := Rqs.rqs_derivative_pos h x
+  refine ⟨Rqs.rqs_hasDerivAt h x hlo hhi, hd, ?_⟩
+  simp only [Gen.RationalQuadraticSpline.transform_and_log_det, RealInst.sumElem_eq, RealInst.log_eq]
+  rw [abs_of_pos hd]
+
+/-- strictly outside the interval the map is the identity with derivative 1 and log-det 0 -/
+theorem rqs_ld_outside {p : Gen.RationalQuadraticSpline ℝ} (h : Rqs.RqsWF p) {x : ℝ}
+    (hx : x < p.interval.1 ∨ p.interval.2 < x) :
+    HasDerivAt p.transform 1 x ∧ (p.transform_and_log_det x).2 = 0 := by
+  have h1 := Rqs.rqs_hasDerivAt_outside h hx
+  refine ⟨h1.1, ?_⟩
+  simp only [Gen.RationalQuadraticSpline.transform_and_log_det, RealInst.sumElem_eq, RealInst.log_eq, h1.2,
+    Real.log_one]
+
+/-- the log-det returned with the inverse is minus the forward one at the preimage — every real input,
+interval ends and knots included -/
+theorem rqs_ld_antisym {C : Type} {p : Gen.RationalQuadraticSpline ℝ} (h : Rqs.RqsWF p) :
+    (p.toBij : Bij ℝ C ℝ).LdAntisym Set.univ := Rqs.rqs_ldAntisym h
+
+/-- the derivative the log-det is built from is positive everywhere (so the log is of a positive number) -/
+theorem rqs_derivative_pos {p : Gen.RationalQuadraticSpline ℝ} (h : Rqs.RqsWF p) (x : ℝ) :
+    0 < p.derivative x := Rqs.rqs_derivative_pos h x
 
 end C02
